@@ -53,14 +53,24 @@ def execute(case):
         elif pairs:
             args = list(pairs)
         r, exc = guarded(format_url, base, path=path, args=args, fragment=frag, ext=ext)
-        r2, exc2 = guarded(lambda: URLFormatter(base_url=base, args=args if isinstance(args, dict) or args is None else None)
-                           .format(path=path, args=None if isinstance(args, dict) or args is None else args, fragment=frag, ext=ext))
+        # the formatter class: arguments given to the constructor (every other case also ext and fragment) or at call time
+        if case["id"] % 2 == 0:
+            r2, exc2 = guarded(lambda: URLFormatter(base_url=base, args=args if isinstance(args, dict) or args is None else None)
+                               .format(path=path, args=None if isinstance(args, dict) or args is None else args, fragment=frag, ext=ext))
+        else:
+            r2, exc2 = guarded(lambda: URLFormatter(base_url=base, args=args if isinstance(args, dict) or args is None else None, fragment=frag, ext=ext)
+                               .format(path=path, args=None if isinstance(args, dict) or args is None else args))
         return {"id": case["id"], "kind": kind, "base": case["base"], "path": case["path"], "ext": case["ext"], "frag": case["frag"],
                 "args": case["args"], "r": E(r), "r2": E(r2 if exc2 is None else r), "exc": exc or ""}
     if kind == "addarg":
         from ural.utils import add_query_argument, get_query_argument
         u, key, v = dec(case["u"]), dec(case["key"]), pyval(case["v"])
-        r, exc = guarded(add_query_argument, u, key, v)
+        # (quote=False is exercised when neither key nor value needs quoting: the result must be the same)
+        plain = all(c.isalnum() for c in key) and (v is None or v is True or all(c.isalnum() or c == "." for c in str(v)))
+        if plain and case["id"] % 2 == 1:
+            r, exc = guarded(add_query_argument, u, key, v, quote=False)
+        else:
+            r, exc = guarded(add_query_argument, u, key, v)
         got = ["N", []]
         isnew = False
         if exc is None:
